@@ -100,7 +100,7 @@ func (g *G) strVal() string {
 
 func (g *G) next() int { g.n++; return g.n }
 
-var regexPool = []string{"cpu.*", "^server[0-9]+$", "a/b", "^(us|eu)-west$", `\d+\.\d+`, "^$", "x", "(?i)abc", "^a/b/c$", "[a-z]{2,3}", `\/already`, "^é.*", "", "a|b"}
+var regexPool = []string{"cpu.*", "^server[0-9]+$", "a/b", "^(us|eu)-west$", `\d+\.\d+`, "^$", "x", "(?i)abc", "^a/b/c$", "[a-z]{2,3}", `\/already`, "^é.*", "", "a|b", `C:\\/tmp`, `a\\\\/b/`}
 
 func (g *G) regexLit() *influxql.RegexLiteral {
 	src := regexPool[g.Rg.Intn(len(regexPool))]
